@@ -705,6 +705,96 @@ fn part_programmed(ctx: &mut Ctx, n: u64) {
     }
 }
 
+/// Sum of the two aggregators' round-two sketch verifier shares for `art` at `param` under `key`
+/// (what the sketch demands to be zero), observed through the public API only.
+fn observe_round_two_sum(vdaf: &P1, art: &Art, param: &Poplar1AggregationParam, key: &[u8; 32], f: &Fp) -> Option<BigUint> {
+    let m = manual_init(vdaf, art, param, key)?;
+    let msg = catch(|| vdaf.verifier_shares_to_message(&art.vctx, param, m.shares.clone())).ok()?.ok()?;
+    let mut sum = BigUint::zero();
+    for st in m.states {
+        match catch(|| vdaf.verify_next(&art.vctx, st, msg.clone())).ok()?.ok()? {
+            VerifyTransition::Continue(_, sh) => {
+                let b = sh.get_encoded().ok()?;
+                if b.len() != f.elem_size() {
+                    return None;
+                }
+                sum = f.add(&sum, &BigUint::from_bytes_le(&b));
+            }
+            VerifyTransition::Finish(_) => return None,
+        }
+    }
+    Some(sum)
+}
+
+/// The simulate-and-cancel client. It programs a bad value (not 0/1, or an authenticator that does
+/// not match), runs both aggregators LOCALLY under a verification key of its own choosing, reads the
+/// round-two verifier value sigma' that its report produces there, and subtracts sigma' from its
+/// share of the correlated-randomness offset B, so that the report verifies whenever the real
+/// verification randomness equals the simulated one. With randomness that genuinely depends on the
+/// aggregators' secret key the real run sees sigma = c2 (r^2 - r'^2) + c1 (r - r') != 0 and rejects;
+/// any randomness that is fixed, predictable or independent of the key lets the report through.
+fn part_predicted_randomness(ctx: &mut Ctx, n: u64) {
+    let mut rng = ctx.rng("c04-predicted");
+    let f64m = Fp::f64();
+    let f255m = Fp::new();
+    for i in 0..n {
+        let bits = pick_bits(&mut rng, ctx.quick());
+        let vdaf = Poplar1::new_turboshake128(bits);
+        let alpha = random_bits(&mut rng, bits);
+        let vctx = gen_vctx(&mut rng);
+        let nonce: [u8; 16] = rng.array();
+        let level = match rng.below(3) {
+            0 => bits - 1,
+            _ => rng.usize_below(bits),
+        };
+        let leaf = level == bits - 1;
+        let f = if leaf { &f255m } else { &f64m };
+        let Some(mal) = build_malicious(ctx, &mut rng, bits, &alpha, &vctx, &nonce, &[level], false, false) else { continue };
+        let plan = &mal.plans[level];
+        if plan.c2.is_zero() && plan.c1.is_zero() {
+            // only the constant term is off: cancelling it yields a VALID report, nothing to assert
+            ctx.count("predicted_randomness_plan_becomes_valid");
+            continue;
+        }
+        // candidate sets: the lone on-path candidate (the sharpest case) or small company
+        let maxn = *rng.choose(&[1usize, 1, 1, 2, 3, 8]);
+        let set = if maxn == 1 { vec![alpha[..=level].to_vec()] } else {
+            match gen_set(&mut rng, &alpha, level, maxn, true, &[]) { Some(s) => s, None => continue }
+        };
+        let Ok(param) = make_param(&set) else { continue };
+        let own_key: [u8; 32] = rng.array();
+        let Some(sigma) = observe_round_two_sum(&vdaf, &mal.art, &param, &own_key, f) else {
+            ctx.count("predicted_randomness_simulation_failed");
+            continue;
+        };
+        // subtract sigma' from aggregator 0's share of B at `level`
+        let mut art = mal.art.clone();
+        let es = f.elem_size();
+        let off = if leaf { 48 + (bits - 1) * 16 + 32 } else { 48 + level * 16 + 8 };
+        let old = BigUint::from_bytes_le(&art.isb[0][off..off + es]);
+        art.isb[0][off..off + es].copy_from_slice(&f.enc(&f.sub(&old, &sigma)));
+        // self-check of the attack construction: under the client's OWN key the adjusted report must now verify
+        match observe_round_two_sum(&vdaf, &art, &param, &own_key, f) {
+            Some(z) if z.is_zero() => ctx.count("predicted_randomness_selfcheck_ok"),
+            _ => {
+                ctx.count("predicted_randomness_selfcheck_FAILED");
+                ctx.inconclusive("simulate-and-cancel: the adjusted report does not verify under the client's own key (harness model of the input-share layout or of the sketch is off)");
+                continue;
+            }
+        }
+        ctx.count("predicted_randomness_reports_built");
+        ctx.count(&format!("predicted_randomness_candidates_{}", if set.len() == 1 { "1" } else { "2+" }));
+        ctx.trace(|| format!("predicted {i}: bits={bits} level={level} candidates={}", set.len()));
+        if let Some(h) = honest_report(ctx, &mut rng, &vdaf, bits, &alpha, &vctx, &nonce) {
+            honest_control(ctx, &mut rng, &vdaf, &h, &set);
+        }
+        let strat = format!("simulate-and-cancel:{}", plan.strategy().trim_start_matches("programmed:"));
+        let c = Case { vdaf: &vdaf, art: &art, prefixes: &set, tamper: &Tamper::none(), must_reject: true, strategy: &strat,
+                       detail: json!({"plan_at_level": plan.json(), "client_simulation_key": hex(&own_key), "sigma_under_client_key": sigma.to_string(), "candidates": set.len()}) };
+        judge(ctx, &mut rng, &c);
+    }
+}
+
 /// A non-adaptive alteration of a verifier share or verifier message in transit (single byte
 /// flip, truncation, extension, or swapping the two aggregators' shares).
 fn random_sketch_tamper(rng: &mut Rng64, leaf: bool) -> Tamper {
@@ -1413,10 +1503,12 @@ pub fn run(ctx: &mut Ctx) {
     let n4 = per_shard(ctx, 9_600, 48_000);
     let n5 = per_shard(ctx, 24_000, 200_000);
     let n6 = per_shard(ctx, 6_400, 64_000);
+    let n7 = per_shard(ctx, 16_000, 200_000);
     part_programmed(ctx, n1);
     part_cw(ctx, n2);
     part_two_point(ctx, n5);
     part_far_two_point(ctx, n6);
+    part_predicted_randomness(ctx, n7);
     part_bytes(ctx, n3);
     part_variants(ctx, n4);
     // Anti-vacuity (per shard: every shard runs every part).
@@ -1432,6 +1524,9 @@ pub fn run(ctx: &mut Ctx) {
     }
     if c(ctx, "two_point_reports_built") == 0 {
         ctx.inconclusive("no two-point (sum-to-one) report could be built on this shard");
+    }
+    if c(ctx, "predicted_randomness_reports_built") == 0 {
+        ctx.inconclusive("no simulate-and-cancel report could be built on this shard");
     }
     if c(ctx, "far_two_point_reports_built") == 0 {
         ctx.inconclusive("no far two-point report could be built on this shard");
